@@ -169,6 +169,13 @@ def check_series(vals, shape, scale_checks=True):
                 msgs.append("sharpe_ratio(risk-free series) = %r, definition %r for %s (%s)" % (float(got), want[0] / want[1] if want[1] else None, list(vals), shape))
         except Exception as ex:
             msgs.append("sharpe_ratio(risk-free series) raised %r" % (ex,))
+        try:
+            got = s.sharpe_ratio(rfs.to_frame())
+            want = ((ref["cagr"] - rf_cagr), ref["volatility"])
+            if not ratio_ok(got, *want):
+                msgs.append("sharpe_ratio(risk-free DataFrame) = %r, definition %r for %s (%s)" % (float(got), want[0] / want[1] if want[1] else None, list(vals), shape))
+        except Exception as ex:
+            msgs.append("sharpe_ratio(risk-free DataFrame) raised %r" % (ex,))
         # the other risk-adjusted ratios with a risk-free level series
         try:
             for k in ("sortino_ratio", "calmar_ratio", "martin_ratio"):
